@@ -229,6 +229,10 @@ func checkDiagDelivery(sc *bw.Scenario, w *world, res *vresult, out *simkit.Outc
 				}
 				continue
 			}
+			if orig == "." {
+				// the package's own top directory, in the spelling a file system gives it
+				orig = ""
+			}
 			if !sourceaddrs.ValidSubPath(orig) {
 				if got != orig {
 					out.Violate("C12", "diag-filename", "non-subpath-rewritten", fmt.Sprintf("variant %d: diagnostic %s file name %q is not a sub-path and must pass through, arrived as %q", vi, e.ID, orig, got))
